@@ -118,13 +118,14 @@ class Worker:
     """One persistent `vh worker` process. A request that kills or hangs the worker is attributed to exactly the
     case in flight; the worker is then restarted."""
 
-    def __init__(self, path, timeout=30.0):
+    def __init__(self, path, timeout=25.0):
         self.path = path
         self.timeout = timeout
         self.p = None
         self.buf = b""
         self.restarts = 0
-        self._start()
+        self.timeouts = 0       # a tree that hangs must not make the check itself run for hours: after 3 hangs
+        self._start()           # the rest of the shard's cases are answered "timeout" without being run
 
     def _start(self):
         env = dict(os.environ)
@@ -181,11 +182,15 @@ class Worker:
 
     def request(self, req):
         """Returns the response dict, or {"died": how} when the worker crashed / hung on this request."""
+        if self.timeouts >= 3:
+            return {"died": "timeout", "not_run": True}
         self._send(req)
         try:
             line = self._readline(time.time() + self.timeout)
             return json.loads(line)
         except WorkerDied as d:
+            if d.how == "timeout":
+                self.timeouts += 1
             self._restart()
             return {"died": d.how}
 
@@ -195,6 +200,10 @@ class Worker:
         results = [None] * len(cases)
         start = 0
         while start < len(cases):
+            if self.timeouts >= 3:
+                for i in range(start, len(cases)):
+                    results[i] = {"died": "timeout", "not_run": True}
+                break
             chunk = cases[start:]
             self._send({"op": "batch", "cases": chunk, "defaults": defaults or {}})
             done = 0
@@ -210,6 +219,8 @@ class Worker:
             except WorkerDied as d:
                 results[start + done] = {"died": d.how}
                 start = start + done + 1
+                if d.how == "timeout":
+                    self.timeouts += 1
                 self._restart()
         return results
 
